@@ -290,7 +290,53 @@ Example C06_conc_refusal_overtaken :
      no_room 256 (r_head (g_ring sp_c)) (r_tail (g_ring sp_c)) 24 = false).
 Proof. exact spurious_refusal. Qed.
 
-(* the trace oracle of the concurrent cases is true of every run of the thread model.  `run_conc` = sequential
+(* ---- the known class refusal-on-stale-tail (KNOWN_FINDINGS.txt) ----
+   The property text: "a write is refused for lack of space only when the unconsumed bytes plus the record (and wrap padding)
+   really exceed the capacity".  A refusing step is in the known class when it is the head re-read of the wrap check and the
+   tail counter has moved since the caller read it (the caller was overtaken).  Outside the class every refusal is justified
+   at the very instant it is decided: `no_room` holds of the real head and tail positions. *)
+Definition KnownClass_refusal_on_stale_tail (R : ring) (ps : pstate) : Prop :=
+  exists tl, p_pc ps = PReadHead2 tl /\ r_tail R <> tl.
+
+Theorem C06_conc_refusal_justified : forall lo m cfg i ps R' ps' e,
+  Inv lo cfg -> nth_error (g_prods cfg) i = Some ps ->
+  pstep m (g_ring cfg) (Z.of_nat (S i)) ps = (R', ps', Some e) ->
+  refused_now ps ps' ->
+  ~ KnownClass_refusal_on_stale_tail (g_ring cfg) ps ->
+  exists typ body, at_write (r_cap (g_ring cfg)) ps typ body /\
+    no_room (r_cap (g_ring cfg)) (r_head (g_ring cfg)) (r_tail (g_ring cfg)) (Z.of_nat (length body)) = true.
+Proof. intros lo m cfg i ps R' ps' e HI Hi Hs Href Hk.
+  destruct (conc_refusal lo m cfg i ps R' ps' e HI Hi Hs Href) as (typ & body & tl & Aw & _ & _ & Htl & Hcase & Hsame).
+  exists typ, body. split; [exact Aw |]. cbn zeta in *.
+  destruct Hcase as [(Epc & _ & Hreal) | (Epc & _)].
+  - unfold no_room. pose proof (wrap_pad_bounds (r_cap (g_ring cfg)) (r_tail (g_ring cfg)) (Z.of_nat (length body)) (i_cap _ _ HI)). lia.
+  - destruct (Z.eq_dec (r_tail (g_ring cfg)) tl) as [E | N]; [exact (Hsame E) |].
+    exfalso. apply Hk. exists tl. split; assumption. Qed.
+Print Assumptions C06_conc_refusal_justified.
+
+(* the class is inhabited and the property's predicate fails on it: the run of corpus/C06/overtaken-refusal.json.  At the
+   refusing step the producer is in the class, the ring is empty (no_room false); on the whole run the core of the oracle
+   holds, the refusal clause fails, and the decidable form of the class (what the check evaluates on the implementation's
+   observation) is true *)
+Definition kn_progs : list (list wreq) := [[(1, payload 0 24)]; [(2, payload 1 0); (3, payload 2 0); (4, payload 3 0)]].
+Definition kn_post : list op := [OpRead 2147483647; OpRead 2147483647; OpDump].
+Definition kn_obs := run_conc Debug (init 256 232 8 0) [] [2147483647] kn_progs (unrle [(1, 2); (2, 400); (0, 400); (1, 400)]) [-1; -1; -1] kn_post.
+Theorem C06_refusal_on_stale_tail_witness :
+  (exists ps, nth_error (g_prods sp_c) 0 = Some ps /\ KnownClass_refusal_on_stale_tail (g_ring sp_c) ps /\
+     reach 8 Debug sp_c0 sp_c /\
+     exists c' e, step Debug sp_c 1 = Some (c', e) /\ map p_res (g_prods c') = [[Err InsufficientCapacity]; [Ok 0; Ok 0; Ok 0]] /\
+       no_room 256 (r_head (g_ring sp_c)) (r_tail (g_ring sp_c)) 24 = false) /\
+  KnownClass_refusal_on_stale_tail_obs 256 232 [] kn_progs kn_post kn_obs = true /\
+  holds_conc_core 256 232 [] kn_progs kn_post kn_obs = true /\
+  holds_conc 256 232 [] kn_progs kn_post kn_obs = false.
+Proof. split; [| repeat split; vm_compute; reflexivity].
+  destruct spurious_refusal as (Hr & Hpc & Hh & Ht & _ & Hstep).
+  eexists. split; [vm_compute; reflexivity |]. split; [exists 232; split; [vm_compute; reflexivity | rewrite Ht; discriminate] |].
+  split; [exact Hr | exact Hstep]. Qed.
+Print Assumptions C06_refusal_on_stale_tail_witness.
+
+(* the trace oracle of the concurrent cases: holds_conc = holds_conc_core && refusals_ok.  The core - positions, claims,
+   deliveries - is true of every run of the thread model (the refusal clause: C06_conc_refusal_justified below).  `run_conc` = sequential
    prelude, threads under a schedule (replayed exactly as the harness's scheduler does), sequential epilogue;
    `conc_domain`: the prelude is in the sequential domain, the programs are well-formed and every write of the case
    has its own type id, the epilogue consists of reads and dumps (at least one read), positions stay below 2^62.
@@ -303,7 +349,7 @@ Theorem C06_oracle_conc : forall m cp p0 hc0 c0 pre limits progs sched stops pos
   let obs := run_conc m (init cp p0 hc0 c0) pre limits progs sched stops post in
   forallb finished (snd (fst obs)) = true ->
   (let '(h3, t3) := last_ht p0 (fst (fst (fst obs)) ++ snd obs) in h3 = t3) ->
-  holds_conc cp p0 pre progs post obs = true.
+  holds_conc_core cp p0 pre progs post obs = true.
 Proof. exact oracle_conc_model. Qed.
 Print Assumptions C06_oracle_conc.
 
@@ -332,8 +378,9 @@ Example C06_oracle_conc_example :
   conc_domain 64 40 40 0 exo_pre exo_progs exo_post /\
   forallb finished (snd (fst exo_obs)) = true /\
   (let '(h3, t3) := last_ht 40 (fst (fst (fst exo_obs)) ++ snd exo_obs) in h3 = t3) /\
+  holds_conc_core 64 40 exo_pre exo_progs exo_post exo_obs = true /\
   holds_conc 64 40 exo_pre exo_progs exo_post exo_obs = true.
-Proof. split; [| split; [| split]]; try (vm_compute; reflexivity).
+Proof. split; [| split; [| split; [| split]]]; try (vm_compute; reflexivity).
   unfold conc_domain. split; [| split; [| split; [| split; [| split]]]].
   - unfold seq_domain. split; [exists 6; split; [lia | reflexivity] |].
     repeat split; try (vm_compute; congruence); try reflexivity. constructor; [right; reflexivity | constructor].
